@@ -17,6 +17,7 @@ from . import common, ledger
 
 
 KF_STRANDED = 'C08/process_vm_result/complete-strands-cancellations'
+KF_UNCATCHABLE = 'C08/inject_exception/outer-frames-not-searched'
 
 
 def harness(F, ex):
@@ -147,6 +148,8 @@ def replay_requests():
     reqs.append({'cmd': 'order_trace', 'src': base + 'const x = await order({k:1}); x + 1', 'expect_issued': 1, 'expect_cancelled': [], 'fulfill': 'then_empty', 'expect_value': 2.0})
     reqs.append({'cmd': 'order_trace', 'src': base + 'let r = "none"; try { await order({k:1}) } catch (e) { r = "caught" } r', 'expect_issued': 1, 'expect_cancelled': [],
                  'error_for': [1], 'expect_value': 'caught'})
+    reqs.append({'cmd': 'order_trace', 'src': base + 'function g(){ return order({k:1}) } let r = "none"; try { await g() } catch (e) { r = "caught" } r', 'expect_issued': 1,
+                 'expect_cancelled': [], 'error_for': [1], 'expect_value': 'caught', 'key': KF_UNCATCHABLE})
     reqs.append({'cmd': 'order_trace', 'src': base + 'const t1 = await order({k:1}); const t2 = await order({k:2}); __cancelOrder__(t2); __cancelOrder__(t1); const t3 = await order({k:3}); t3',
                  'expect_issued': 3, 'expect_cancelled': [1, 2], 'expect_value': 3.0})
     return reqs
@@ -233,7 +236,7 @@ def validate_against_real(rep):
         if o.get('protocol_violation'):
             pth = rep.write_replay('order-trace', {'cmd': 'order_trace', 'src': p, 'observed': o})
             stranded = o['protocol_violation'].startswith('cancellations reported to the host') and o['trace'] and o['trace'][-1] == 'Complete'
-            rep.violation(KF_STRANDED if stranded else 'C08/order_trace/scripted-host',
+            rep.violation(KF_STRANDED if stranded else rq.get('key', 'C08/order_trace/scripted-host'),
                           'scripted host run violates the protocol: %s (program: %s)' % (o['protocol_violation'], p.split('\n')[-1]), pth)
 
 
@@ -355,6 +358,63 @@ def check_cancel_syscall(rep, cross):
     rep.absorb(ex)
 
 
+KF_UNCATCHABLE = 'C08/inject_exception/outer-frames-not-searched'
+
+
+def check_inject_exception(rep, cross):
+    """an error response (or a rejected host promise) re-enters the suspended VM through BytecodeVM::inject_exception; it must be
+    catchable by ANY active frame: the function may give up (return false) only after it has unwound the whole trampoline stack"""
+    from . import c14
+    L = c14.Ledger(rep, ('handle_error_with_trampoline_unwind', 'unwind_frame_scopes'), 3, ('find_exception_handler',))
+    ex = L.ex
+    try:
+        fn = common.fn_name(ex, 'BytecodeVM', 'inject_exception')
+    except driver.Inconclusive as err:
+        rep.inconc(str(err))
+        return
+    f = ex.mir.get(fn)
+    st = State()
+    a_vm, n0, t0 = L.fresh_vm(st)
+    args = [Ref(a_vm)] + [ex.fresh(st, t, '$a%d' % i) for i, (a_, t) in enumerate(f.args[1:], 1)]
+    ex.call_function(st, fn, args)
+    ends = ex.run(st, max_paths=20000)
+    n_false = 0
+    for k, e in enumerate(ends):
+        if e.status in ('bound', 'panic'):
+            continue
+        if e.status != 'return':
+            rep.inconc('inject_exception: %s %s' % (e.status, e.detail[:140]))
+            continue
+        if not isinstance(e.value, Bool):
+            rep.inconc('inject_exception: unexpected return value %r' % (e.value,))
+            continue
+        tfin = ex.vec_len(ex.load(e.st, a_vm, (('f', L.tidx, L.t_ty),))).e
+        g = z3.Implies(z3.Not(e.value.e), tfin == 0)
+        r, m = ex.check_sat_pc(e.st.pc, [z3.Not(g)])
+        if ex.check_sat_pc(e.st.pc, [z3.Not(e.value.e)])[0] == 'sat':
+            n_false += 1
+        what = 'inject_exception path %d: "no handler" is reported only after every frame of the trampoline stack has been searched' % k
+        rep.obligation(what, r, 'any VM state, trampoline stack of symbolic length (loops unrolled 3 times)', 0.0)
+        if r == 'unsat':
+            cross.append((what, list(e.st.pc) + [z3.Not(g)], 'unsat'))
+        elif not rep.seen(KF_UNCATCHABLE):
+            base = 'import { order } from "tsrun:host";\n'
+            srcs = [base + 'function g(){ return order({k:1}) } let r = "none"; try { await g() } catch (e) { r = "caught" } r',
+                    base + 'async function f(){ return await order({k:1}) } let r = "none"; try { await f() } catch (e) { r = "caught" } r']
+            outs = driver.replay([{'cmd': 'order_trace', 'src': s_, 'error_for': [1]} for s_ in srcs])
+            rep.validated += len(outs)
+            bad = [(s_.split('\n')[1], o.get('trace', [])[-1:]) for s_, o in zip(srcs, outs) if (o.get('value') or {}).get('v') != 'caught']
+            p = rep.write_replay('inject-exception', {'frames_left_unsearched': m.eval(tfin, model_completion=True).as_long(), 'programs': srcs, 'observed': outs})
+            rep.violation(KF_UNCATCHABLE, 'inject_exception gives up with %d frames of the trampoline stack not searched for a handler%s' % (
+                m.eval(tfin, model_completion=True).as_long(),
+                ': an error response to an order awaited inside a called function cannot be caught by the caller - %r ends with %r' % bad[0] if bad else ' (symbolic counterexample)'), p)
+    if n_false == 0:
+        rep.inconc('inject_exception: no path reports "no handler" (vacuity)')
+    rep.vacuity.append('inject_exception: %d paths can report "no handler"' % n_false)
+    rep.sample({'kernel': 'BytecodeVM::inject_exception', 'paths_reporting_no_handler': n_false})
+    rep.absorb(ex)
+
+
 def run(rep):
     rep.bounds = dict(ledger='any lengths of pending/cancelled orders, any suspended_for_order, any number of waiting contexts',
                       vm_result='any variant, payloads opaque', loops='none')
@@ -372,6 +432,7 @@ def run(rep):
     check_step_idle(rep, cross)
     check_fulfill_orders(rep, cross)
     check_cancel_syscall(rep, cross)
+    check_inject_exception(rep, cross)
     from . import c08wg
     c08wg.check(rep, cross)
     rep.cross = driver.cross_check(cross, 300, 'ALL', rep.tier, rep.seed)
